@@ -320,7 +320,7 @@ PLANS["C11"] = {
             "another meta block, if branch, loop body) in a program with 4 kinds of surrounding stack/variables and 5 kinds of "
             "follow-up code; the same program with the block replaced by the literal value(s) that e yields under ordinary evaluation "
             "(last result first; original order directly inside another block) must give the same observation through eval and "
-            "compile+run; words defined inside must not be callable afterwards. 1 of 8: one of 17 blocks that try to read or change "
+            "compile+run; words defined inside must not be callable afterwards. 1 of 8: one of 22 blocks that try to read or change "
             "the surrounding stack or a variable, in 3 wrappers: must be rejected and leave stack and variables unchanged. 1 of 8: "
             "hook invariants - compile() of a whole G1/G2 program leaves data stack, existing variables and output untouched; compiling "
             "a single block adds exactly one code cell per result and only its constants to the dictionary. Expressions include results "
@@ -334,7 +334,7 @@ PLANS["C11"] = {
                     "by state::tests::test_meta_meta); everywhere else results are inlined last result first"],
     "require": [need("pairs_equal", 150000), need("failing_blocks_rejected", 300), need("purge_checks", 20000), need("sealing_probes_rejected", 20000),
                 need("compile_invariants_checked", 10000), need("block_hook_invariants_checked", 10000), need_set("positions", 9),
-                need_set("expr_classes", 17), need_set("sealing_kinds", 17), need_set("result_counts", 4),
+                need_set("expr_classes", 17), need_set("sealing_kinds", 22), need_set("result_counts", 4),
                 need("twin_stack_probes:accepted_alike", 1000), need("twin_stack_probes:rejected_alike", 5000)],
 }
 
